@@ -232,7 +232,7 @@ pub async fn replay(path: &str) -> Result<String, String> {
                 }
                 sim.catchup(n, &member, &kvs, mx, gc);
             }
-            "ROUND" | "ROUNDSEND" | "HS" | "HSEND" => sim.raw_record(head, "ok"),
+            "ROUND" | "ROUNDSEND" | "HS" | "HSEND" | "HONEST" => sim.raw_record(head, "ok"),
             t => return Err(format!("unsupported operation {t}")),
         }
     }
